@@ -25,14 +25,6 @@ Fixpoint find_entity (D : list entity) (t id : string) : option entity :=
   end.
 
 (* ---------- input coercion: literal/variable -> JSON as the resolver sees it ---------- *)
-Fixpoint insert_sorted {A} (k : string) (v : A) (l : list (string * A)) : list (string * A) :=
-  match l with
-  | [] => [(k, v)]
-  | (k', v') :: t => if String.eqb k k' then (k, v) :: t
-                     else if String.ltb k k' then (k, v) :: l else (k', v') :: insert_sorted k v t
-  end.
-Definition sort_keys {A} (l : list (string * A)) : list (string * A) := fold_left (fun acc kv => insert_sorted (fst kv) (snd kv) acc) l [].
-
 Fixpoint coerce (vars : env) (v : value) : option json :=     (* None: variable without a value (argument omitted) *)
   match v with
   | VVar n => lookup n vars
